@@ -307,8 +307,21 @@ def _reaction_from_dict(reaction: Dict, model: Model) -> Reaction:
 
     """
     new_reaction = Reaction()
+    # Set both bounds at once: assigning them one after the other is checked
+    # against the default bounds of a fresh reaction and fails, for instance, for
+    # a lower bound above the default upper bound.
+    new_reaction.bounds = (
+        float(reaction.get("lower_bound", new_reaction.lower_bound)),
+        float(reaction.get("upper_bound", new_reaction.upper_bound)),
+    )
     for k, v in reaction.items():
-        if k in {"objective_coefficient", "reversibility", "reaction"}:
+        if k in {
+            "objective_coefficient",
+            "reversibility",
+            "reaction",
+            "lower_bound",
+            "upper_bound",
+        }:
             continue
         elif k == "metabolites":
             new_reaction.add_metabolites(
@@ -318,10 +331,7 @@ def _reaction_from_dict(reaction: Dict, model: Model) -> Reaction:
                 )
             )
         else:
-            if k == "lower_bound" or k == "upper_bound":
-                setattr(new_reaction, k, float(v))
-            else:
-                setattr(new_reaction, k, v)
+            setattr(new_reaction, k, v)
     return new_reaction
 
 
